@@ -527,6 +527,11 @@ static std::string AbortClass(int sig, const std::string& errtail)
     auto pos = errtail.find("Assertion");
     if (pos == std::string::npos) pos = errtail.find("ssertion");
     if (pos == std::string::npos) pos = errtail.find("Internal bug");
+    if (pos == std::string::npos && (pos = errtail.find("threadsim: ")) != std::string::npos) {
+        // simulator-detected deadlock / livelock: keep only the verdict, not the thread dump
+        size_t end = errtail.find(';', pos);
+        return k + ":" + errtail.substr(pos, end == std::string::npos ? 60 : end - pos);
+    }
     if (pos != std::string::npos) {
         std::string t = errtail.substr(pos, 160);
         k += ":" + t;
@@ -545,6 +550,14 @@ struct Batch {
     bool budget_hit{false};
     size_t nviol{0};          //!< violating runs seen so far
     size_t stop_after_viol{12}; //!< stop dispatching new chunks once this many runs violated
+    std::vector<std::string> known_keys; //!< keys of this property's known findings: such runs do not count towards the early stop
+    bool IsKnown(const RunOut& r) const
+    {
+        for (auto& k : known_keys)
+            if (r.cls.find(k) != std::string::npos || r.detail.find(k) != std::string::npos) return true;
+        return false;
+    }
+    size_t nknown{0};
     // running totals (only when `aggregate` is set: the primary batch, not duplicates / single-plan runs)
     bool aggregate{false};
     std::set<uint64_t> fps_nt, traces;
@@ -655,7 +668,7 @@ struct Batch {
         if (line.size() > 2 && line[0] == 'R' && line[1] == '\t') {
             RunOut r;
             if (LineToOut(line.substr(2), r) && r.idx >= 0 && (size_t)r.idx < results.size()) {
-                if (r.violated) ++nviol;
+                if (r.violated) { if (IsKnown(r)) ++nknown; else ++nviol; }
                 if (aggregate) {
                     // fold into the running totals and keep only what later stages need (memory: millions of runs)
                     traces.insert(r.trace_hash);
@@ -850,6 +863,8 @@ static int CmdRun(const std::string& prop, Tier tier, uint64_t base_seed, int jo
     for (long i = 0; i < runs; ++i) items.push_back({i, RunSeed(base_seed, prop, i), nullptr, i < 3, false});
     Batch b{e, tier, jobs, budget, {}, 0, t0};
     b.aggregate = true;
+    for (auto& f : LoadFindings(g_verif_dir + "/known_findings.txt"))
+        if (f.prop == e.prop) b.known_keys.push_back(f.key);
     b.results.resize(runs + ndup);
     b.Run(items);
     long completed = 0;
@@ -924,7 +939,9 @@ static int CmdRun(const std::string& prop, Tier tier, uint64_t base_seed, int jo
         if (again.trace_hash != r.trace_hash && r.trace_len != 0)
             printf("note: trace hash differs on re-run (%s vs %s); violation class reproduced\n", HexU64(r.trace_hash).c_str(), HexU64(again.trace_hash).c_str());
         int evals = 0;
-        Plan min = Minimise(e, plan, tier, r.cls, tier == Tier::QUICK ? 150 : 600, tier == Tier::QUICK ? 60 : 300, evals);
+        // a violation that matches a known finding is re-confirmed (gate + replay) but not minimised again
+        const bool matches_known = b.IsKnown(r);
+        Plan min = matches_known ? plan : Minimise(e, plan, tier, r.cls, tier == Tier::QUICK ? 150 : 600, tier == Tier::QUICK ? 60 : 300, evals);
         RunOut mr = RunPlanForked(e, min, tier);
         if (!(mr.ok && mr.violated && mr.cls == r.cls)) { min = plan; mr = again; }
         std::string file = g_verif_dir + "/replays/" + e.prop + "-" + std::to_string(r.seed) + ".json";
